@@ -468,7 +468,7 @@ class TSQLGenerator(generator.Generator):
                     exp.column("TABLE_SCHEMA").eq(table.db) if table.db else None,
                     exp.column("TABLE_CATALOG").eq(table.catalog) if table.catalog else None,
                 )
-                return f"""IF NOT EXISTS (SELECT * FROM INFORMATION_SCHEMA.TABLES WHERE {where}) EXEC({sql_literal})"""
+                return f"""IF NOT EXISTS (SELECT * FROM INFORMATION_SCHEMA.TABLES WHERE {self.sql(where)}) EXEC({sql_literal})"""
             elif kind == "INDEX":
                 index = self.sql(exp.Literal.string(expression.this.text("this")))
                 return f"""IF NOT EXISTS (SELECT * FROM sys.indexes WHERE object_id = object_id({identifier}) AND name = {index}) EXEC({sql_literal})"""
